@@ -206,10 +206,13 @@ def kernels(rep):
         ok = ok2 = False
         if len(rets) == 1 and isinstance(rets[0].value, ast.Call) and call_name(rets[0].value) == "_null_space" and rets[0].value.args:
             a0 = rets[0].value.args[0]
-            m = pmatch("$s.T", a0) if transposed else (pmatch("$s", a0) if isinstance(a0, ast.Name) else None)
-            ok = m is not None
-            if m:
-                ok2 = norm(origin(d, ast.Name(id=m["s"], ctx=ast.Load()))) == f"stoichiometric_matrix({fi.params[0]})"
+            # the matrix handed to the kernel routine: S (possibly transposed), S a local or the call itself
+            base = a0.value if (transposed and isinstance(a0, ast.Attribute) and a0.attr == "T") else (None if transposed else a0)
+            if transposed and base is None and isinstance(origin(d, a0), ast.Attribute) and origin(d, a0).attr == "T":
+                base = origin(d, a0).value
+            ok = base is not None and not (not transposed and isinstance(origin(d, base), ast.Attribute) and origin(d, base).attr == "T")
+            if ok:
+                ok2 = norm(origin(d, base)) == f"stoichiometric_matrix({fi.params[0]})"
         rep.ob("O17.1", "SHAPE", fi, ok, "_null_space(S.T)" if transposed else "_null_space(S)", what)
         rep.ob("O17.1", "SHAPE", fi, ok2, "S = stoichiometric_matrix(crn)", "the kernel is taken of the network's stoichiometric matrix")
     rk = rep.f(ST, "stoichiometric_rank")
